@@ -502,7 +502,15 @@ func main() {
 	nchain := flag.Int("nchain", 300, "chain cases")
 	big := flag.Bool("big", false, "subnets down to /20")
 	one := flag.String("replay", "", "replay one case: ports:<seed> | nested:<seed> | chain:<seed>[:big]")
+	sniffIf := flag.String("sniff", "", "internal: wire log on this interface")
+	proto := flag.String("proto", "tcp", "internal: what the wire log records")
+	sx := flag.String("e2e", "", "end-to-end runs with this sx binary in private network namespaces")
+	ne2e := flag.Int("ne2e", 7, "number of end-to-end runs")
 	flag.Parse()
+	if *sniffIf != "" {
+		sniff(*sniffIf, *proto, *out)
+		return
+	}
 	baseGoroutines = runtime.NumGoroutine()
 	var err error
 	if tmpDir, err = os.MkdirTemp("", "c01-"); err != nil {
@@ -511,6 +519,10 @@ func main() {
 	defer os.RemoveAll(tmpDir)
 	w := hlib.NewOut(*out)
 	defer w.Close()
+	if *sx != "" {
+		mainE2E(w, *sx, *seed, *ne2e)
+		return
+	}
 	if *one != "" {
 		f := strings.Split(*one, ":")
 		var cs int64
